@@ -71,9 +71,20 @@ def pts(pairs):
     return [[common.fx(x), common.fx(y)] for x, y in pairs]
 
 
+STATE = {"after_save": False}
+
+
+def fresh_canvas(plt):
+    """The user closes what a show_* call displayed; after a save_* call the library itself must have closed the figure,
+    so nothing is cleaned up here and a figure left open would show up in the next plot."""
+    if not STATE["after_save"]:
+        plt.close("all")
+    STATE["after_save"] = False
+
+
 def figure_event(ctx, plt, workdir, name, fn, kind, seqs=None, coords=None, getfig=False, save=False, title="", labels=(), xlim=1, ylim=1):
     """Call one entry point and turn the figure into an event."""
-    plt.close("all")
+    fresh_canvas(plt)
     before = set(glob.glob(os.path.join(workdir, "*")))
     with SaveSpy(plt) as spy:
         out = common.call(fn, limit=120)
@@ -83,7 +94,10 @@ def figure_event(ctx, plt, workdir, name, fn, kind, seqs=None, coords=None, getf
     fileok = bool(new) and all(os.path.getsize(f) > 0 for f in new)
     for f in new:
         os.remove(f)
-    plt.close("all")
+    if save:
+        STATE["after_save"] = out[0] == "ok"
+    else:
+        plt.close("all")
     e = {"q": "figure", "entry": name, "kind": kind, "fromseq": seqs is not None, "seqs": [list(s) for s in (seqs or [])],
          "coords": pts(coords or []), "exc": out[0] != "ok" or rec is None, "getfig": bool(getfig), "returned": out[0] == "ok" and out[1] is not None,
          "saved": bool(save), "fileok": fileok, "wanttitle": title, "wantlabels": list(labels), "wantxlim": common.fx(xlim), "wantylim": common.fx(ylim),
@@ -97,7 +111,7 @@ def figure_event(ctx, plt, workdir, name, fn, kind, seqs=None, coords=None, getf
 
 
 def bars_event(ctx, plt, workdir, name, fn, seq, stat, w, save):
-    plt.close("all")
+    fresh_canvas(plt)
     before = set(glob.glob(os.path.join(workdir, "*")))
     with SaveSpy(plt) as spy:
         out = common.call(fn, limit=120)
@@ -106,7 +120,10 @@ def bars_event(ctx, plt, workdir, name, fn, seq, stat, w, save):
     for f in glob.glob(os.path.join(workdir, "*")):
         if f not in before:
             os.remove(f)
-    plt.close("all")
+    if save:
+        STATE["after_save"] = out[0] == "ok"
+    else:
+        plt.close("all")
     bars = rec["bars"] if rec else []
     return {"q": "bars", "entry": name, "seq": list(seq), "stat": stat, "w": w, "exc": out[0] != "ok" or rec is None,
             "xs": [common.fx(b[0]) for b in bars], "heights": [common.fx(b[1]) for b in bars], "error": repr(out[1:3]) if out[0] != "ok" else ""}
@@ -165,7 +182,7 @@ def run(ctx):
     # (V)
     rng = ctx.rng
     trs = []
-    seqs = common.random_sequences(rng, ctx.pick(14, 80), 60, 3)
+    seqs = common.random_sequences(rng, ctx.pick(14, 80), 60, 3) + ["K", "E", "KE", "GK", "SY", "KEG"]
     P = lc.plots
     for i, s in enumerate(seqs):
         o = lc.SP(s)
@@ -186,7 +203,7 @@ def run(ctx):
                                    "uversky", seqs=[s], getfig=getfig, title=title, labels=lab1, xlim=xl, ylim=yl))
         ev.append(figure_event(ctx, plt, workdir, "SP.show_phaseDiagramPlot(getFig=True) by keyword", lambda: o.show_phaseDiagramPlot(getFig=True),
                                "phase", seqs=[s], getfig=True, title="Diagram of states", labels=[], xlim=1, ylim=1))
-        fmt = rng.choice(["png", "pdf"])
+        fmt = rng.choice(["png", "pdf", "svg"])
         ev.append(figure_event(ctx, plt, workdir, "SP.save_phaseDiagramPlot", lambda: o.save_phaseDiagramPlot(fn, label, title, leg, xl, yl, fs, fmt),
                                "phase", seqs=[s], save=True, title=title, labels=lab1, xlim=xl, ylim=yl))
         ev.append(figure_event(ctx, plt, workdir, "SP.save_uverskyPlot", lambda: o.save_uverskyPlot(fn, label, title, leg, xl, yl, fs, fmt),
